@@ -1,15 +1,15 @@
 import FiberModel.Basic
 /-
 C10 — executable model of the proxy-trust decision and the gated accessors (after the `fix:`
-commits F1, F2, see docs/C10.md): `/repo/ctx.go` `IsProxyTrusted`, `IP`, `IPs`,
+commits F1–F5, see docs/C10.md): `/repo/ctx.go` `IsProxyTrusted`, `IP`, `IPs`,
 `extractIPFromHeader`, `extractIPsFromHeader`, `Host`, `Hostname`, `Scheme`, `BaseURL`, `Secure`,
 `Subdomains`, `Protocol`; `/repo/app.go` `handleTrustedProxy`; `/repo/helpers.go` `parseAddr`;
-`gofiber/utils` `IsIPv4`, `IsIPv6`; Go `net.IP` `To4`, `IsLoopback`, `IsPrivate`,
-`IsLinkLocalUnicast`, `IPNet.Contains`.
+`gofiber/utils` `IsIPv4`, `IsIPv6` (and fiber's `isIPv6` in front of it); Go `net.IP` `To4`, `IsLoopback`, `IsPrivate`,
+`IsLinkLocalUnicast`, `IPNet.Contains`, `String` (`net/netip` `appendTo4`, `appendTo6`).
 
 Parameters (obtained from Go by the harness with every case; modelled, not verified): text parsing
-of the configured `Proxies` (`net.ParseIP` / `net.ParseCIDR`), `net.IP.String()`, the request as
-fasthttp presents it (`RequestHeader.VisitAll`, `URI().Host()`, header-name normalisation).
+of the configured `Proxies` (`net.ParseIP` / `net.ParseCIDR`; which of the two applies is decided here,
+`fileProxy`), the request as fasthttp presents it (`RequestHeader.VisitAll`, `URI().Host()`, header-name normalisation).
 -/
 namespace C10
 open B
@@ -69,6 +69,62 @@ def cidrContains (nip mask ip : Bytes) : Bool :=
   | none => false
   | some (nn, m) => ip.length == nn.length && maskedEq nn m ip
 
+/-! ### `net.IP.String()` (`netip.Addr.appendTo4`, `appendTo6`, `appendDecimal`, `appendHex`) -/
+
+/-- `digits[d]` of "0123456789abcdef" -/
+def hexNib (d : Nat) : Nat := if d < 10 then 48 + d else 87 + d
+
+/-- `appendDecimal(b, x uint8)` -/
+def appendDecimal (x : Nat) : Bytes :=
+  (if x ≥ 100 then [48 + x / 100] else []) ++ (if x ≥ 10 then [48 + x / 10 % 10] else []) ++ [48 + x % 10]
+
+/-- `appendHex(b, x uint16)`: no leading zeros, lower case -/
+def appendHex (x : Nat) : Bytes :=
+  (if x ≥ 4096 then [hexNib (x / 4096)] else []) ++ (if x ≥ 256 then [hexNib (x / 256 % 16)] else []) ++
+  (if x ≥ 16 then [hexNib (x / 16 % 16)] else []) ++ [hexNib (x % 16)]
+
+/-- `appendTo4` -/
+def string4 : Bytes → Bytes
+  | [a, c, d, e] => appendDecimal a ++ 46 :: (appendDecimal c ++ 46 :: (appendDecimal d ++ 46 :: appendDecimal e))
+  | _ => []
+
+/-- `ip.v6u16(0..7)` -/
+def groups16 : Bytes → List Nat
+  | a :: c :: rest => (a * 256 + c) :: groups16 rest
+  | _ => []
+
+/-- the inner loop of `appendTo6`: the first `j ≥ i` whose group is not zero (or the end) -/
+def zeroRunEnd (g : List Nat) (i : Nat) : Nat := i + ((g.drop i).takeWhile (· == 0)).length
+
+/-- one pass of the outer loop: a run of at least two zero groups, longer than the best so far
+    (`zeroEnd-zeroStart` is 0 for the initial 255, 255) -/
+def zeroRunStep (g : List Nat) (best : Nat × Nat) (i : Nat) : Nat × Nat :=
+  let j := zeroRunEnd g i
+  if j - i ≥ 2 && j - i > best.2 - best.1 then (i, j) else best
+
+/-- `zeroStart, zeroEnd` after the first loop of `appendTo6` -/
+def bestZeroRun (g : List Nat) : Nat × Nat := (List.range 8).foldl (zeroRunStep g) (255, 255)
+
+/-- the second loop of `appendTo6` from index `i` -/
+def emit6 (g : List Nat) (zs ze : Nat) : Nat → Nat → Bytes
+  | 0, _ => []
+  | fuel + 1, i =>
+    if i ≥ 8 then []
+    else if i == zs then
+      58 :: 58 :: (if ze ≥ 8 then [] else appendHex (g.getD ze 0) ++ emit6 g zs ze fuel (ze + 1))
+    else (if i > 0 then [58] else []) ++ appendHex (g.getD i 0) ++ emit6 g zs ze fuel (i + 1)
+
+/-- `appendTo6` without zone -/
+def string6 (ip : Bytes) : Bytes :=
+  let g := groups16 ip
+  emit6 g (bestZeroRun g).1 (bestZeroRun g).2 9 0
+
+/-- `net.IP.String()` of a 4- or 16-byte address: dotted quad when `To4` succeeds, else RFC 5952 -/
+def ipString (ip : Bytes) : Bytes :=
+  match to4 ip with
+  | some v4 => string4 v4
+  | none => string6 ip
+
 /-! ### configuration and connection -/
 
 /-- one entry of `TrustProxyConfig.Proxies` as `handleTrustedProxy` files it -/
@@ -77,6 +133,20 @@ inductive Proxy where
   | cidr (nip mask : Bytes)                 -- `net.ParseCIDR` succeeded: `IPNet.IP`, `IPNet.Mask`
   | bad                                     -- logged and ignored
   deriving Repr, DecidableEq
+
+/-- `handleTrustedProxy(ipAddress)`: an entry containing `/` is a range (`net.ParseCIDR`), any other an
+    address (`net.ParseIP`, filed under its canonical text `ip.String()`); what does not parse is
+    logged and dropped. `parsedIP` = `net.ParseIP(raw).To16()`, `parsedCIDR` = `IPNet.IP, IPNet.Mask`
+    of `net.ParseCIDR(raw)` (both obtained from Go for every entry, whatever it contains). -/
+def fileProxy (raw : Bytes) (parsedIP : Option Bytes) (parsedCIDR : Option (Bytes × Bytes)) : Proxy :=
+  if raw.contains 47 then
+    match parsedCIDR with
+    | some (n, m) => .cidr n m
+    | none => .bad
+  else
+    match parsedIP with
+    | some ip16 => .ip (ipString ip16) ip16
+    | none => .bad
 
 structure Cfg where
   trustProxy : Bool
@@ -183,6 +253,17 @@ def isIPv6 (s : Bytes) : Bool :=
   | none => false
   | some (rest, i, ell) => rest == [] && (if i < 16 then ell else !ell)
 
+/-- the scan in front of `utils.IsIPv6` in fiber's own `isIPv6` (ctx.go, fix F5): `digits` counts the
+    bytes since the last `:` or `.`; `false` = a group of more than four -/
+def shortGroups : Bytes → Nat → Bool
+  | [], _ => true
+  | c :: cs, digits =>
+    if c == 58 || c == 46 then shortGroups cs 0
+    else if digits + 1 > 4 then false else shortGroups cs (digits + 1)
+
+/-- `isIPv6` of ctx.go: no group of more than four digits, then `utils.IsIPv6` -/
+def fiberIsIPv6 (s : Bytes) : Bool := shortGroups s 0 && isIPv6 s
+
 /-! ### `extractIPFromHeader`, `extractIPsFromHeader` -/
 
 /-- the validation test applied to one candidate `s` taken from the segment `seg` (`v4`/`v6` are set
@@ -190,7 +271,7 @@ def isIPv6 (s : Bytes) : Bool :=
 def passes (validate : Bool) (segTail s : Bytes) : Bool :=
   let v6 := segTail.contains 58
   let v4 := segTail.contains 46
-  !validate || !((!v6 && !v4) || (v6 && !isIPv6 s) || (v4 && !v6 && !isIPv4 s))
+  !validate || !((!v6 && !v4) || (v6 && !fiberIsIPv6 s) || (v4 && !v6 && !isIPv4 s))
 
 /-- `extractIPFromHeader`'s loop over the remaining header value (`rest = headerValue[j+1:]`);
     `none` = fell out of the loop -/
